@@ -223,7 +223,8 @@ def pair_equal(rec, rng, cid):
     kind = ["tuple-list", "int-float", "bool-01", "dict-order",
             "segment-name", "num-samples-plateau-off",
             "range-lower-plateau-on", "two-objects", "params-copy",
-            "params-route", "params-route"][int(rng.integers(11))]
+            "params-route", "params-route", "neg-zero"][
+        int(rng.integers(12))]
     a, b = dict(ctx), dict(ctx)
     if kind == "tuple-list":
         b["range_x"] = tuple(ctx["range_x"])
@@ -266,6 +267,20 @@ def pair_equal(rec, rng, cid):
         p["contact_point"].value = 1.5e-7
         a["params_initial"] = p
         b["params_initial"] = copy.deepcopy(p)
+    elif kind == "neg-zero":
+        # -0.0 == 0.0: the same value in another representation
+        which = int(rng.integers(3))
+        if which == 0:
+            a["range_x"], b["range_x"] = [0.0, ctx["range_x"][1]], \
+                [-0.0, ctx["range_x"][1]]
+        elif which == 1:
+            a["weight_cp"], b["weight_cp"] = 0.0, -0.0
+        else:
+            pa = gen.nanite_params(spec["model"])
+            pb = gen.nanite_params(spec["model"])
+            pa["contact_point"].value = 0.0
+            pb["contact_point"].value = -0.0
+            a["params_initial"], b["params_initial"] = pa, pb
     elif kind == "params-route":
         # equal value/min/max/vary/expr for every parameter, reached along
         # different routes: attributes that cannot influence a fit (stderr,
